@@ -120,6 +120,37 @@ pub fn run(ctx: &Ctx) -> Result<(), String> {
             sched.merge(s);
         }
     }
+    // a burst that the worker takes in one call of process_events, of sizes around the most it takes
+    // per call (16 batches), then silence, then the signal: sends, wait until the worker is back at
+    // the top of its loop, signal
+    {
+        let plans: Vec<(u8, usize, i32)> = ctx.tier.pick(
+            vec![(1, 16, libc::SIGINT), (1, 17, libc::SIGTERM), (2, 32, libc::SIGTERM)],
+            vec![(1, 15, libc::SIGINT), (1, 16, libc::SIGINT), (1, 16, libc::SIGTERM), (1, 17, libc::SIGTERM), (1, 32, libc::SIGINT), (2, 31, libc::SIGINT), (2, 32, libc::SIGTERM), (2, 33, libc::SIGINT), (4, 64, libc::SIGINT)],
+        );
+        for (bs, k, sig) in plans {
+            let scn = Scenario {
+                name: format!("shutdown-n1-bs{}-burst{}-idle-{}", bs, k, if sig == libc::SIGINT { "INT" } else { "TERM" }),
+                workers: 1,
+                health: false,
+                stats: false,
+                batch_size: bs,
+                env: vec![],
+                idle_iteration: false,
+                horizon: 400 + 8 * k,
+                expect: Expect::CleanExit,
+                probe_at_end: false,
+            };
+            let s = explore(ctx, "client_stats off/burst-then-idle", &scn, &move |slot: &Slot| {
+                let cs = slot.map.get(&(1, 0))?;
+                let mut e: Vec<EnvAct> = (0..k).map(|i| EnvAct::Send(cs[i % cs.len().min(4)], if i % 3 == 0 { Version::Ietf13 } else { Version::Classic })).collect();
+                e.push(EnvAct::WaitIdle);
+                e.push(EnvAct::Signal(sig));
+                Some(e)
+            }, 0, ctx.tier.pick(1500, 30000), Duration::from_secs(ctx.tier.pick(25, 90)))?;
+            sched.merge(s);
+        }
+    }
     // part 2: flood lasso
     let lasso = crate::sched::flood_lasso(ctx)?;
     // part 4: TLA+ lifecycle model (TLC: invariants + termination under fairness) bound to the
@@ -331,7 +362,7 @@ pub fn run(ctx: &Ctx) -> Result<(), String> {
             2,
             Duration::from_secs(20),
         )?;
-        let conn = std::net::TcpStream::connect_timeout(&format!("127.0.0.1:{}", hport).parse().unwrap(), Duration::from_secs(2));
+        let conn = crate::util::tcp_connect(&format!("127.0.0.1:{}", hport).parse().unwrap(), Duration::from_secs(2));
         std::thread::sleep(Duration::from_millis(250));
         let t0 = Instant::now();
         sp.signal(sig);
@@ -533,7 +564,7 @@ pub fn run(ctx: &Ctx) -> Result<(), String> {
     ctx.cov("sampled_wall_clock", json!(sampled));
     ctx.cov("caps_hit", json!(sched.caps_hit));
     ctx.cov("exhaustive", json!(sched.caps_hit.is_empty()));
-    ctx.cov("rule", json!("(1) the real server process under the controlled scheduler: N workers, client_stats off/on, K requests; the environment action signal(INT|TERM) is placed at every position of the request program and, being an actor, is interleaved at every point of every explored schedule (iterative preemption bounding). Oracle: after the signal the process exits with status 0 under the fair default continuation within the horizon; no enabled actor while alive = deadlock; horizon exceeded = livelock; no panic text; every datagram a client received is an authentic reply. (2) flood lasso: after the flag is stored an adversarial environment refills the worker's socket with batch_size datagrams (valid / rejected / mixed) before every step of the worker inside process_events (per received datagram, per response, per batch); the worker must reach flag_check within the step bound of a bounded drain (a recurring abstract state without flag_check is a lasso). (4) a TLA+ model of the whole lifecycle (main, N workers, reporter, signal) checked by TLC for its invariants and for termination under weak fairness, bound to the implementation by replaying a transition cover of its state graph under the controller and comparing the enabled-actor sets at every step. A second signal during the shutdown is an environment action too (scenarios named ..-then-INT/TERM): still exit 0. (3) sampled wall-clock runs of the free-running binary (idle / after closed-loop load, swept delays, both signals, client_stats off/on): exit 0 within 5 s."));
+    ctx.cov("rule", json!("(1) the real server process under the controlled scheduler: N workers, client_stats off/on, K requests; the environment action signal(INT|TERM) is placed at every position of the request program and, being an actor, is interleaved at every point of every explored schedule (iterative preemption bounding). Oracle: after the signal the process exits with status 0 under the fair default continuation within the horizon; no enabled actor while alive = deadlock; horizon exceeded = livelock; no panic text; every datagram a client received is an authentic reply. (2) flood lasso: after the flag is stored an adversarial environment refills the worker's socket with batch_size datagrams (valid / rejected / mixed) before every step of the worker inside process_events (per received datagram, per response, per batch); the worker must reach flag_check within the step bound of a bounded drain (a recurring abstract state without flag_check is a lasso). (4) a TLA+ model of the whole lifecycle (main, N workers, reporter, signal) checked by TLC for its invariants and for termination under weak fairness, bound to the implementation by replaying a transition cover of its state graph under the controller and comparing the enabled-actor sets at every step. A burst of exactly / one fewer / one more than 16 x batch_size requests taken by one worker in one call of process_events, then silence, then the signal (environment: sends, wait until the worker is idle at the top of its loop, signal). A second signal during the shutdown is an environment action too (scenarios named ..-then-INT/TERM): still exit 0. (3) sampled wall-clock runs of the free-running binary (idle / after closed-loop load, swept delays, both signals, client_stats off/on): exit 0 within 5 s."));
     ctx.sample(json!({"kind":"schedule","scenario":"shutdown-n2-stats0-k2-INT-pos1","schedule":["env:send(c1,C)","env:signal(INT)","worker-0@loop_top(0)","worker-0@polled(1)"]}));
     ctx.assume("signal delivery is one atomic environment action: kill(), then wait until the flag store is observed (the handler thread does nothing else)");
     ctx.assume("'a few seconds' is decided in steps (bounded liveness under the fair continuation); wall-clock runs are conformance evidence");
